@@ -18,6 +18,8 @@ type VDB struct {
 	// LateCommits names transaction commit gates "~late:db.commit#k": they sort after every other alternative, so by
 	// default a commit stays in flight until nothing else can run (exploration order only).
 	LateCommits bool
+	// LatePuts does the same for non-transactional Set calls ("~late:db.put[<key>]#k").
+	LatePuts bool
 	// FaultCommits adds the "fail" answer to commit gates; FaultSets gates every Set inside a transaction with {ok, fail}.
 	FaultCommits bool
 	FaultSets    bool
@@ -137,7 +139,11 @@ func (d *VDB) Set(ctx context.Context, key string, value []byte) error {
 		if d.FaultCommits {
 			menu = append(menu, "fail")
 		}
-		if a := d.W.Gate(nil, "db.put["+key+"]", menu...); a != "ok" && a != AnsAbort {
+		gate := "db.put[" + key + "]"
+		if d.LatePuts {
+			gate = "~late:" + gate
+		}
+		if a := d.W.Gate(nil, gate, menu...); a != "ok" && a != AnsAbort {
 			d.W.Log("db", "putfail", -1, key)
 			return errInjected
 		}
